@@ -142,6 +142,12 @@ def install(E):
                 return (None, mkerr('illegal base64 data'))
         f, v, d = (b64enc, validb64, b64dec) if kind != 'rawurl' else (b64rawenc, validb64raw, b64rawdec)
         if is_app_of(s.t, f.name()): return (BytesV(e.tostr(s.t.arg(0))), None)
+        other = b64rawenc if kind != 'rawurl' else b64enc
+        if is_app_of(s.t, other.name()):
+            # text produced by the other URL alphabet variant: it differs only in the padding, so where it is acceptable
+            # at all (length a multiple of 4 / no padding needed) it decodes to the same bytes
+            if e.branch(v(s.t)): return (BytesV(e.tostr(s.t.arg(0))), None)
+            return (None, mkerr('illegal base64 data'))
         t = d(s.t)
         e.ax(('b64d', t.get_id()), z3.Implies(v(s.t), z3.ULE(slen(t), slen(s.t))), z3.Implies(slen(t) == 0, t == e.lit('')))
         note_dec(e, s.t, 'b64' if kind != 'rawurl' else 'b64raw', t, v(s.t))
